@@ -688,8 +688,106 @@ func genBulk(rng *rand.Rand, pools hPools, instances int) []hOp {
 	return ops
 }
 
+// genGcStory: ONE swarm with a few members of each role stored at an old clock; later some of them re-announce; an
+// expiry pass whose cutoff lies in between then purges none, part or all of EACH role (every combination over the
+// stories); afterwards the surviving (or vanished) swarm is used in every way: a new member in each role, a graduation
+// of a surviving and of a purged leecher, announces with every event, a scrape, a selection - then everything expires.
+func genGcStory(rng *rand.Rand, pools hPools, instances int, k int) []hOp {
+	v6 := rng.Intn(3) == 0
+	ih := pools.ihs[rng.Intn(len(pools.ihs))]
+	clock := int64(1_700_000_000_000_000_000)
+	mk := func(i int, seeder bool) hOp {
+		id := make([]byte, 20)
+		copy(id, []byte("-GC0001-"))
+		binary.BigEndian.PutUint32(id[16:], uint32(i))
+		op := hOp{T: "store", IH: ih, V6: v6, PID: hx(id), Port: 2000 + i, Inst: rng.Intn(instances), Which: 3}
+		if v6 {
+			ip := net.ParseIP("2001:db8::")
+			binary.BigEndian.PutUint32(ip[12:], uint32(i+1))
+			op.IP = hx(ip)
+		} else {
+			op.IP = hx([]byte{10, 9, byte(i >> 8), byte(i)})
+		}
+		if seeder {
+			op.Which = 1
+		}
+		return op
+	}
+	// k enumerates (members, kept) per role: 0 = none at all, 1 = all purged, 2 = part purged, 3 = none purged
+	mode := func(m int) (n, keep int) {
+		switch m {
+		case 0:
+			return 0, 0
+		case 1:
+			return 1 + rng.Intn(3), 0
+		case 2:
+			n = 2 + rng.Intn(3)
+			return n, 1 + rng.Intn(n-1)
+		}
+		n = 1 + rng.Intn(3)
+		return n, n
+	}
+	nS, keepS := mode(k % 4)
+	nL, keepL := mode((k / 4) % 4)
+	ops := []hOp{{T: "clock", Ns: clock}}
+	for i := 0; i < nS; i++ {
+		ops = append(ops, mk(i, true))
+	}
+	for i := 0; i < nL; i++ {
+		ops = append(ops, mk(100+i, false))
+	}
+	stale := clock
+	clock += int64(10 * time.Minute)
+	ops = append(ops, hOp{T: "clock", Ns: clock})
+	for i := 0; i < keepS; i++ {
+		ops = append(ops, mk(i, true))
+	}
+	for i := 0; i < keepL; i++ {
+		ops = append(ops, mk(100+i, false))
+	}
+	ops = append(ops, hOp{T: "gc", Cutoff: stale + 5, Inst: rng.Intn(instances)}, hOp{T: "dump"}, hOp{T: "totals", Inst: rng.Intn(instances)})
+	var after []hOp
+	after = append(after, mk(200, false), mk(201, true))
+	g := mk(100, false) // a leecher that survived (keepL > 0) or was purged
+	g.Which = 5
+	after = append(after, g)
+	g2 := mk(100+nL, false) // never a member, or (nL = 0) nobody
+	g2.Which = 5
+	after = append(after, g2)
+	for ev := 0; ev < 4; ev++ {
+		a := mk(300+ev, false)
+		if ev%2 == 0 {
+			a = mk(rng.Intn(3), true) // an old seeder (purged or not) announces again
+		}
+		a.T, a.Ev, a.NW = "ann", ev, 5
+		if rng.Intn(2) == 0 {
+			a.Left = 7
+		}
+		after = append(after, a)
+	}
+	after = append(after, hOp{T: "scrape", IHs: []string{ih}, V6: v6, Inst: rng.Intn(instances)})
+	pr := mk(7, false)
+	pr.T, pr.Seeder, pr.NW = "peers", rng.Intn(2) == 0, 10
+	after = append(after, pr)
+	rng.Shuffle(len(after), func(i, j int) { after[i], after[j] = after[j], after[i] })
+	ops = append(ops, after...)
+	ops = append(ops, hOp{T: "dump"}, hOp{T: "totals", Inst: rng.Intn(instances)})
+	clock += int64(10 * time.Minute)
+	ops = append(ops, hOp{T: "clock", Ns: clock}, hOp{T: "gc", Cutoff: clock - 5, Inst: rng.Intn(instances)}, hOp{T: "dump"}, hOp{T: "totals", Inst: rng.Intn(instances)})
+	return ops
+}
+
 func histStream(o *Out, rng *rand.Rand, n int, emphasis string) {
 	memShards := []int{1, 2, 7, 1024}
+	// the 16 expiry stories (none / all / part / nothing purged, per role): all on the memory store, a third (thorough: all) on Redis
+	for k := 0; k < 16; k++ {
+		cfg := hStoreCfg{Kind: "mem", Shards: memShards[k%len(memShards)]}
+		runHistory(o, "gc-story-mem", cfg, genGcStory(rng, mkPools(rng, cfg.Shards), 1, k))
+		if n >= 1000 || k%3 == 1 {
+			cfg = hStoreCfg{Kind: "redis", Instances: 1 + k%3}
+			runHistory(o, "gc-story-redis", cfg, genGcStory(rng, mkPools(rng, cfg.Shards), cfg.Instances, k))
+		}
+	}
 	// two large-swarm histories first (one per store), more in the thorough tier
 	for i := 0; i < 2+n/150; i++ {
 		cfg := hStoreCfg{Kind: "mem", Shards: memShards[i%len(memShards)]}
